@@ -106,6 +106,7 @@ def run_checks(wt, dst, prop, checks, ver):
             ['/venv/bin/python', '-m', 'vf.cli', c, '--tier', 'quick'],
             cwd=HERE, env=dict(
                 os.environ, VERIF_REPO=wt, VERIF_HOME=vh, PYTHONHASHSEED='0',
+                VERIF_NO_SHRINK=os.environ.get('VERIF_NO_SHRINK', ''),
                 PYTHONWARNINGS='ignore', PYTHONDONTWRITEBYTECODE='1',
                 PYTHONPATH='%s:%s:%s/.deps' % (wt, HERE, HERE)),
             stdout=subprocess.PIPE, stderr=subprocess.STDOUT,
@@ -117,7 +118,10 @@ def run_checks(wt, dst, prop, checks, ver):
                             'output': [l[:300] for l in lines[:4]]}
         # keep the replay of the first violation next to the seed
         for rf in glob.glob(os.path.join(vh, 'replays', c, '*.json'))[:1]:
-            shutil.copy(rf, os.path.join(dst, 'replay_%s.json' % c))
+            target = os.path.join(dst, 'replay_%s.json' % c)
+            if not (os.environ.get('VERIF_NO_SHRINK') and
+                    os.path.exists(target)):
+                shutil.copy(rf, target)
         shutil.rmtree(vh, ignore_errors=True)
     mp = os.path.join(dst, 'meta.json')
     try:
